@@ -166,7 +166,15 @@ TecmpPayloadPtr TECMP::Decoder::GetCanPayload(const uint8_t* payloadData, const 
 
 TecmpPayloadPtr TECMP::Decoder::GetLinPayload(const uint8_t* payloadData, const std::size_t size)
 {
+    // The payload has to hold the header (PID, data length) and the data bytes it announces
+    const std::size_t headerSize = LinPayload().getLength();
+    if (size < headerSize)
+        return {};
+
     LinPayload payload(payloadData, size);
+    if (size < headerSize + payload.getDataLength())
+        return {};
+
     if (payload.isValid())
         return std::make_shared<Payload>(payload);
 
